@@ -463,6 +463,16 @@ var c17Wire = []string{"ok", "rpc-error", "400", "401", "404", "408", "409", "42
 
 func c17E2ECases(tier string) []c17E2ECase {
 	var out []c17E2ECase
+	// the complete answer event arrives on the SSE stream, then the connection is reset: a success, never
+	// re-attempted (a JSON body that ends in a reset is not known to be complete, so that is no case here)
+	for _, mode := range []string{"ss"} {
+		for _, retry := range []int{-1, 1, 2} {
+			out = append(out, c17E2ECase{mode, retry, []string{"ok+reset", "ok"}})
+			if retry > 0 {
+				out = append(out, c17E2ECase{mode, retry, []string{"503", "ok+reset", "ok"}})
+			}
+		}
+	}
 	for _, mode := range []string{"sj", "ls"} {
 		for _, a := range c17Wire {
 			out = append(out, c17E2ECase{mode, -1, []string{a, "ok"}})
@@ -528,7 +538,7 @@ func c17E2EEval(tier string, i int) CaseResult {
 				return nil, errors.New("read tcp 10.0.0.1:5->10.0.0.2:80: read: connection reset by peer"), true
 			case "eof":
 				return nil, io.EOF, true
-			case "ok", "rpc-error", "lost":
+			case "ok", "rpc-error", "lost", "ok+reset":
 				attempts-- // the handler below consumes this script position
 				times = times[:len(times)-1]
 				return nil, nil, false
@@ -548,9 +558,24 @@ func c17E2EEval(tier string, i int) CaseResult {
 				w.HTTP(202, "", "")
 				w = &httpAnswer{s: ss, w: ss.stream, started: true, sse: true}
 			}
-			if next() == "rpc-error" {
+			switch o := next(); {
+			case o == "ok+reset":
+				// the complete answer, then the connection is reset instead of ending in an orderly way
+				ans := fmt.Sprintf(`{"jsonrpc":"2.0","id":%s,"result":{"content":[{"type":"text","text":"fine"}]}}`, id)
+				raw := ans + "\n"
+				if cs.Mode == "ss" || cs.Mode == "ls" {
+					raw = "id: evt-1\ndata: " + ans + "\n\n"
+					if cs.Mode == "ls" {
+						raw = "event: message\ndata: " + ans + "\n\n"
+					}
+				}
+				w.WritePartial(raw, errors.New("read tcp 10.0.0.1:5->10.0.0.2:80: read: connection reset by peer"))
+				return true
+			case o == "rpc-error":
 				w.Frame(fmt.Sprintf(`{"jsonrpc":"2.0","id":%s,"error":{"code":-32000,"message":"application error"}}`, id))
-			} else {
+				return true
+			}
+			{
 				w.Frame(fmt.Sprintf(`{"jsonrpc":"2.0","id":%s,"result":{"content":[{"type":"text","text":"fine"}]}}`, id))
 			}
 			return true
@@ -600,7 +625,7 @@ func c17E2EEval(tier string, i int) CaseResult {
 			viol = append(viol, V(k(fmt.Sprintf("e2e:attempts:%s", strings.Join(cs.Script[:want], ","))), "the request was sent %d times, the rule prescribes %d (retries=%d, server script %v)", attempts, want, cs.Retry, cs.Script))
 		}
 		switch final {
-		case "ok":
+		case "ok", "ok+reset":
 			if cerr != nil || TextOf(out) != "fine" {
 				viol = append(viol, V(k("e2e:result"), "expected the successful answer, got %q %v", TextOf(out), cerr))
 			}
